@@ -26,6 +26,10 @@ namespace Spectra {
 template <typename Scalar, typename ArnoldiOpType>
 class Lanczos : public Arnoldi<Scalar, ArnoldiOpType>
 {
+#ifdef SPECTRA_VERIF
+    friend struct ::SpectraVerifAccess;
+#endif
+
 private:
     // The real part type of the matrix element
     using RealScalar = typename Eigen::NumTraits<Scalar>::Real;
@@ -181,6 +185,9 @@ public:
 
         // Indicate that this is a step-m factorization
         m_k = to_m;
+#ifdef SPECTRA_VERIF
+        SPECTRA_VERIF_FAC_HOOK("extend", *this, m_k);
+#endif
     }
 
     // Apply H -> Q'HQ, where Q is from a tridiagonal QR decomposition
